@@ -669,11 +669,6 @@ theorem live_step {types : List String} {batches : List (List Callback)} {cbs : 
 
 /-! #### the cache along a history -/
 
-theorem cacheAfter_snoc (hist : List Event) (ev : Event) :
-    cacheAfter lower (hist ++ [ev]) = stepEvent lower (Cache.ops lower) (cacheAfter lower hist) ev := by
-  unfold cacheAfter runEvents
-  rw [List.foldl_append]; rfl
-
 /-- provenance: every cached type-PTR record is a class-IN pointer record whose owner name is spelled exactly
 as a browsed type (because every datagram record was) -/
 def CachedWF (types : List String) (c : Cache) : Prop :=
